@@ -416,12 +416,19 @@ func ruleC17R3(c *Ctx) {
 // R4: the sink is closed before the socket descriptor (= slot index) is released
 func ruleC17R4(c *Ctx) {
 	for _, fn := range c.P.Fns(aRunConn) {
-		closer := c.callsTo(fn, anchorPred("input/tcplistener.(*tcpLineListener).launchConnectionCloser"))
-		if len(closer) != 1 {
-			c.bad("C17.R4", fn, "sink closed before the connection is released", fn.Pos(), "expected one launchConnectionCloser call")
+		var closer []ssa.CallInstruction
+		if c18HasFn(c, "input/tcplistener.(*tcpLineListener).launchConnectionCloser") {
+			closer = c.callsTo(fn, anchorPred("input/tcplistener.(*tcpLineListener).launchConnectionCloser"))
+		}
+		if len(closer) > 1 {
+			c.bad("C17.R4", fn, "sink closed before the connection is released", fn.Pos(), "expected at most one launchConnectionCloser call")
 			continue
 		}
-		aborter := closer[0].Value()
+		// without a closer goroutine (registry form, C18.R4) the release events are the direct closes of the connection
+		var aborter ssa.Value
+		if len(closer) == 1 {
+			aborter = closer[0].Value()
+		}
 		// release events: the Signal of the connection closer, and any direct Close of the connection itself
 		var connP ssa.Value
 		for _, p := range fn.Params {
@@ -434,10 +441,52 @@ func ruleC17R4(c *Ctx) {
 		}
 		isSig := func(s ssa.CallInstruction) bool {
 			f := s.Common().StaticCallee()
-			if f != nil && extName(f) == aSignal && sameValue(s.Common().Args[0], aborter) {
+			if f != nil && aborter != nil && extName(f) == aSignal && sameValue(s.Common().Args[0], aborter) {
 				return true
 			}
 			cc := s.Common()
+			// a private helper that closes the connection it is handed (releaseConnection)
+			if f != nil && c.helpersOf(fn)[f] {
+				for i, a := range cc.Args {
+					if i >= len(f.Params) || !mentions(a, func(v ssa.Value) bool { return v == connP }) {
+						continue
+					}
+					prm := f.Params[i]
+					closesIt := false
+					for _, g := range []*ssa.Function{f} { // the helper's own body: a goroutine it starts is not a release here
+						for _, hs := range callsIn(g) {
+							if _, isGo := hs.(*ssa.Go); isGo {
+								continue
+							}
+							// a close that only happens once the stop request is seen belongs to the stop path, which R4 is not about
+							onStop := false
+							for b := hs.Block(); b != nil; b = b.Idom() {
+								d := b.Idom()
+								if d == nil {
+									break
+								}
+								if iff, ok := d.Instrs[len(d.Instrs)-1].(*ssa.If); ok && len(d.Succs) == 2 && d.Succs[0] == b && len(b.Preds) == 1 &&
+									mentions(iff.Cond, isFieldAddrOf("input/tcplistener.tcpLineListener.stopRequest")) {
+									onStop = true
+								}
+							}
+							if onStop {
+								continue
+							}
+							hc := hs.Common()
+							if hc.IsInvoke() && hc.Method.Name() == "Close" && mentions(hc.Value, func(v ssa.Value) bool { return v == ssa.Value(prm) }) {
+								closesIt = true
+							}
+							if hf := hc.StaticCallee(); hf != nil && hf.Name() == "Close" && len(hc.Args) > 0 && mentions(hc.Args[0], func(v ssa.Value) bool { return v == ssa.Value(prm) }) {
+								closesIt = true
+							}
+						}
+					}
+					if closesIt {
+						return true
+					}
+				}
+			}
 			if cc.IsInvoke() {
 				return cc.Method.Name() == "Close" && mentions(cc.Value, func(v ssa.Value) bool { return v == connP })
 			}
@@ -479,7 +528,11 @@ func ruleC17R4(c *Ctx) {
 				why = "the deferred Signal runs before the sink's Close"
 			}
 		}
-		c.check(okAll, "C17.R4", fn, "sink closed before the connection is released", closer[0].Pos(),
+		posR4 := fn.Pos()
+		if len(closer) == 1 {
+			posR4 = closer[0].Pos()
+		}
+		c.check(okAll, "C17.R4", fn, "sink closed before the connection is released", posR4,
 			"on the non-stop path every Signal of the connection closer follows the sink's Close (deferred calls compared in LIFO order)", why)
 	}
 }
